@@ -14,7 +14,7 @@ def run(args):
     patch, cp, pid = args
     out = tempfile.mkdtemp(dir=base)
     env = dict(os.environ, OTPSA_REPO=cp, VERIF_ROOT=out); env.pop('GOFLAGS', None)
-    r = subprocess.run(['/verif/bin/otpsa', 'check', pid, 'quick'], env=env, capture_output=True, text=True)
+    r = subprocess.run([os.environ.get('OTPSA_BIN', '/verif/bin/otpsa'), 'check', pid, 'quick'], env=env, capture_output=True, text=True)
     msg = [l.strip()[:260] for l in r.stdout.splitlines() if l.startswith('  VIOLATED') or l.startswith('  UNDECIDED') or l.startswith('      ')][:4]
     return (os.path.basename(patch)[:-6], pid, r.returncode, msg)
 jobs = []
